@@ -438,7 +438,7 @@ func (v *vc) frameObligations(fr *frame, st *state, site string) {
 	allowed := map[string][]string{} // heap -> refs ("" = whole heap)
 	se := v.newSpecEnv(fr, v.entry, nil)
 	for _, m := range fc.modifies {
-		if m == "*" {
+		if m == "*" || strings.HasPrefix(m, "*except ") {
 			allowedAll = true
 			continue
 		}
